@@ -71,7 +71,7 @@ def ind_exhaustive(d, q):
 def ind_raise(n):
     """Non-power-of-two mode sizes are rejected with ValueError; powers of two are accepted."""
     pow2 = n >= 1 and (n & (n - 1)) == 0
-    for what in ('ind', 'core'):
+    for what in (('ind', 'core') if n <= 2 ** 18 else ('ind',)):        # (a core of mode size 2^30 is not built)
         try:
             if what == 'ind':
                 teneva.ind_tt_to_qtt(np.zeros((1, 2), dtype=int), n)
@@ -522,6 +522,10 @@ def cases(tier, seed):
     # ---- parameter / regime coverage (audit) ----
     for n in (64, 100, 255, 256, 257, 511, 512, 513, 1000, 1024, 1025, 4095, 4096, 2 ** 16, 2 ** 16 + 1, 2 ** 18, 2 ** 18 - 1, 3 * 2 ** 10):
         yield 'C17.ind.raise', dict(n=n)
+    # sizes RELATIVELY close to a large power of two (a tolerance-based test would accept them) and exact large powers
+    for q in (17, 18, 20, 24, 30, 40, 50, 52, 53, 60, 62):
+        for k in (0, 1, 3, -1, 2 ** (q - 17)):
+            yield 'C17.ind.raise', dict(n=2 ** q + k)
     for d, q in ((1, 20), (2, 31), (1, 32), (2, 33), (1, 40), (3, 48), (1, 53), (2, 54), (1, 62), (2, 62),     # q*d bits, 2^q beyond int32 / 2^53
                  (63, 1), (64, 2), (70, 3), (200, 1), (200, 5), (1000, 2)) + (((5, 62), (500, 8), (3000, 1)) if big else ()):
         yield 'C17.ind.large_modes', dict(d=d, q=q, seed=0)
